@@ -9,6 +9,7 @@ import (
 	"os/exec"
 	"strconv"
 	"strings"
+	"syscall"
 	"time"
 )
 
@@ -60,6 +61,8 @@ func NewSolver(kind string, timeoutMs int) *Solver {
 func (s *Solver) start() {
 	argv := solverArgv(s.kind, s.timeout)
 	s.cmd = exec.Command(argv[0], argv[1:]...)
+	// solver processes must not outlive the engine (e.g. when a run is killed)
+	s.cmd.SysProcAttr = &syscall.SysProcAttr{Pdeathsig: syscall.SIGKILL}
 	in, err := s.cmd.StdinPipe()
 	if err != nil {
 		panic(err)
